@@ -1042,8 +1042,10 @@ MERGE_BOUNDS = {"SCEN 5": "a base type with two relations, one file with two ext
 
 
 def c07(tier):
-    jobs = merge_jobs(tier, "VerifC07_Merge", FIRST)
-    out = engine_a_check("C07", tier, jobs, {"VerifC07_Merge": ["accepted", "rejected"]}, MERGE_ASSUME, "", bounds=MERGE_BOUNDS)
+    # the clause "every file parses as a module" rests on every error the lexer/parser reports being
+    # recorded by the error listener (the per-file parse itself is behind the stub): VerifC16_SyntaxError
+    jobs = merge_jobs(tier, "VerifC07_Merge", FIRST) + [T("transformer", "VerifC16_SyntaxError")]
+    out = engine_a_check("C07", tier, jobs, {"VerifC07_Merge": ["accepted", "rejected"], "VerifC16_SyntaxError": ["recorded"]}, MERGE_ASSUME, "", bounds=MERGE_BOUNDS)
     out.finish()
 
 
